@@ -166,6 +166,7 @@ func (w *World) extraExec(c core.Cmd) bool {
 			return false
 		}
 		in.cacheEpoch++ // the old cache is gone in any case
+		in.recomputed = nil
 		if err := w.recomputeCache(in); err != nil {
 			w.sim.Logf("recompute-cache failed: %v", err)
 			w.sim.Probe("cache.recompute.failed")
@@ -173,6 +174,27 @@ func (w *World) extraExec(c core.Cmd) bool {
 		}
 		w.recomputes++
 		w.sim.Probe("fault.cache.recompute")
+		// what the rebuilt cache must know: the first occurrence of every entry in
+		// the tiles the tool reads (all full tiles; the partial one only when the
+		// tree has no full tile)
+		if pub := w.orc.lastPublished(in.store); pub != nil && pub.STH != nil && !w.orc.tampered {
+			cover := pub.STH.Size
+			if cover >= ref.TileWidth {
+				cover = cover / ref.TileWidth * ref.TileWidth
+			}
+			g := w.orc.truth(in.store)
+			if int64(len(g.entries)) >= cover {
+				in.recomputed = map[[32]byte][2]int64{}
+				in.recomputedEpoch = in.cacheEpoch
+				for i := int64(0); i < cover; i++ {
+					e := g.entries[i]
+					k := independentCacheKey(&ctlog.PendingLogEntry{Certificate: e.Cert, IsPrecert: e.IsPrecert, IssuerKeyHash: e.IssuerKeyHash})
+					if _, ok := in.recomputed[k]; !ok {
+						in.recomputed[k] = [2]int64{i, e.Timestamp}
+					}
+				}
+			}
+		}
 		return true
 	case "cache-snapshot":
 		in := w.inst(c.I)
